@@ -664,8 +664,14 @@ pub fn circuit_to_spec(c: &HCirc) -> Option<GSpec> {
 // ------------------------------------------------------------------------------------------
 
 pub fn json_diagram(d: &mut Decider) -> GSpec {
+    json_diagram_sized(d, false)
+}
+
+/// `large`: 40..70 spiders with sparse edges, so that the JSON text exceeds the 8 KiB
+/// buffers of BufWriter / BufReader several times
+pub fn json_diagram_sized(d: &mut Decider, large: bool) -> GSpec {
     let mut g = GSpec::empty();
-    let nsp = d.choose("j.nsp", 11);
+    let nsp = if large { 40 + d.choose("j.nsp.large", 31) } else { d.choose("j.nsp", 11) };
     let nin = d.choose("j.nin", 4);
     let nout = d.choose("j.nout", 4);
     let dens: [i64; 16] = [1, 1, 2, 4, 4, 8, 3, 5, 7, 16, 64, 256, 255, 97, 128, 12];
@@ -697,7 +703,7 @@ pub fn json_diagram(d: &mut Decider) -> GSpec {
         spiders.push(v);
     }
     // edges among spiders
-    let p = d.choose("j.p", 70);
+    let p = if large { 2 + d.choose("j.p.large", 6) } else { d.choose("j.p", 70) };
     for i in 0..spiders.len() {
         for j in (i + 1)..spiders.len() {
             if d.choose("j.e", 100) < p {
@@ -743,8 +749,8 @@ pub fn json_diagram(d: &mut Decider) -> GSpec {
     while let Some(v) = g.verts.iter().position(|v| v.0 == 255) {
         g = g.without_vertex(v);
     }
-    // coordinates
-    match d.choose("j.coord", 6) {
+    // coordinates (large diagrams always get unique ones: the isomorphism search needs anchors)
+    match if large { 5 } else { d.choose("j.coord", 6) } {
         0 => {} // all (0,0): maximal collisions
         1 => {
             for (i, v) in g.verts.iter_mut().enumerate() {
